@@ -223,4 +223,121 @@ structure OneSided (nLow cols : Nat) (fc : Nat → Option Nat) (g1 : Nat → Nat
   bound : ∀ l, l < nLow → g1 l < cols
   spec : ∀ g l, g < cols → (fc g = some l ↔ l < nLow ∧ g = g1 l)
 
+/-! ## structured generators (`fracs/structured.py`): index arithmetic on tensor grids
+
+`pp.TensorGrid` numbers the node `(i, j, k)` of a grid with `nx × ny × nz` cells as
+`i + j (nx+1) + k (nx+1)(ny+1)`; faces are numbered kind by kind (x-normal, y-normal, z-normal faces),
+the first index running fastest. -/
+
+def nodeIdx (nx ny i j k : Nat) : Nat := i + j * (nx + 1) + k * ((nx + 1) * (ny + 1))
+
+/-- `np.arange(s, e, step)` for a positive step -/
+def arange (s e step : Nat) : List Nat :=
+  (List.range ((e - s + (step - 1)) / step)).map (fun t => s + t * step)
+
+/-- `_find_nodes_on_line(g, nx, s_pt, e_pt)`: `s`, `e` are the node indices closest to the two end
+    points (geometric search, input of the model), `axis` the direction in which the end points
+    differ (0: x-line, 1: y-line, 2: z-line). -/
+def findNodesOnLine (nx ny axis s e : Nat) : List Nat :=
+  arange (min s e) (max s e + 1)
+    (match axis with
+     | 0 => 1
+     | 1 => nx + 1
+     | _ => (nx + 1) * (ny + 1))
+
+abbrev T3 := Nat × Nat × Nat
+
+def T3.get (t : T3) : Nat → Nat
+  | 0 => t.1
+  | 1 => t.2.1
+  | _ => t.2.2
+
+/-- a 3-d tensor grid: cells per direction and node coordinates per direction -/
+structure Grid3 where
+  n : Nat → Nat
+  x : Nat → Nat → Rat
+
+/-- number of indices of a face of kind `d` (normal direction) in direction `c` -/
+def Grid3.bound (g : Grid3) (d c : Nat) : Nat := if c = d then g.n c + 1 else g.n c
+
+def Grid3.numFaces (g : Grid3) (d : Nat) : Nat := g.bound d 0 * g.bound d 1 * g.bound d 2
+
+/-- all faces of kind `d`, in the order of their indices -/
+def Grid3.facesOfKind (g : Grid3) (d : Nat) : List (Nat × T3) :=
+  (List.range (g.bound d 2)).flatMap (fun k => (List.range (g.bound d 1)).flatMap (fun j =>
+    (List.range (g.bound d 0)).map (fun i => (d, (i, j, k)))))
+
+def Grid3.allFaces (g : Grid3) : List (Nat × T3) := g.facesOfKind 0 ++ g.facesOfKind 1 ++ g.facesOfKind 2
+
+def Grid3.faceOffset (g : Grid3) : Nat → Nat
+  | 0 => 0
+  | 1 => g.numFaces 0
+  | _ => g.numFaces 0 + g.numFaces 1
+
+def Grid3.faceIndex (g : Grid3) (f : Nat × T3) : Nat :=
+  g.faceOffset f.1 + f.2.1 + f.2.2.1 * g.bound f.1 0 + f.2.2.2 * (g.bound f.1 0 * g.bound f.1 1)
+
+/-- coordinate `c` of the centre of the face of kind `d` with index `t` -/
+def Grid3.center (g : Grid3) (d : Nat) (t : T3) (c : Nat) : Rat :=
+  if c = d then g.x c (t.get c) else (g.x c (t.get c) + g.x c (t.get c + 1)) / 2
+
+/-- node indices of a face (as a set; `face_nodes`) -/
+def Grid3.faceNodes (g : Grid3) (f : Nat × T3) : List Nat :=
+  let nd := fun (i j k : Nat) => nodeIdx (g.n 0) (g.n 1) i j k
+  let (i, j, k) := f.2
+  match f.1 with
+  | 0 => [nd i j k, nd i (j + 1) k, nd i (j + 1) (k + 1), nd i j (k + 1)]
+  | 1 => [nd i j k, nd i j (k + 1), nd (i + 1) j (k + 1), nd (i + 1) j k]
+  | _ => [nd i j k, nd (i + 1) j k, nd (i + 1) (j + 1) k, nd i (j + 1) k]
+
+/-- the two in-plane directions of a plane with normal direction `o` (`active_dim`) -/
+def activeDims : Nat → Nat × Nat
+  | 0 => (1, 2)
+  | 1 => (0, 2)
+  | _ => (0, 1)
+
+/-- consecutive pairs of a closed polygon -/
+def cyc (P : List (Rat × Rat)) : List ((Rat × Rat) × (Rat × Rat)) :=
+  match P with
+  | [] => []
+  | p :: t => (p :: t).zip (t ++ [p])
+
+/-- `geometry_property_checks.is_ccw_polygon` -/
+def isCcw (P : List (Rat × Rat)) : Bool :=
+  ((cyc P).map (fun e => (e.2.2 + e.1.2) * (e.2.1 - e.1.1))).foldl (· + ·) 0 < 0
+
+/-- the in-plane part of `point_inside_half_space_intersection(normal, f_s, face_centers)` with the
+    edge normals of `_create_lower_dim_grids_3d`: tangent `(tu, tv)` ↦ `sign · (tv, −tu)` -/
+def inHull (P : List (Rat × Rat)) (p : Rat × Rat) : Bool :=
+  let sg : Rat := if isCcw P then 1 else -1
+  (cyc P).all (fun e => (p.1 - e.1.1) * (sg * (e.2.2 - e.1.2)) + (p.2 - e.1.2) * (sg * -(e.2.1 - e.1.1)) ≤ 0)
+
+/-- `f_tag` of `_create_lower_dim_grids_3d` for one face: inside the hull of the snapped rectangle
+    `P` (in-plane coordinates) and within `tol` of the plane `x_o = p` -/
+def Grid3.faceOnPlane (g : Grid3) (o : Nat) (p tol : Rat) (P : List (Rat × Rat)) (f : Nat × T3) : Bool :=
+  inHull P (g.center f.1 f.2 (activeDims o).1, g.center f.1 f.2 (activeDims o).2) &&
+    (p - tol ≤ g.center f.1 f.2 o && g.center f.1 f.2 o < p + tol)
+
+/-- the host faces of a fracture (indices), and the nodes of the fracture grid (`np.unique`) -/
+def Grid3.planeFaces (g : Grid3) (o : Nat) (p tol : Rat) (P : List (Rat × Rat)) : List Nat :=
+  (g.allFaces.filter (g.faceOnPlane o p tol P)).map g.faceIndex
+
+def Grid3.planeNodes (g : Grid3) (o : Nat) (p tol : Rat) (P : List (Rat × Rat)) : List Nat :=
+  let sel := (g.allFaces.filter (g.faceOnPlane o p tol P)).flatMap g.faceNodes
+  (List.range ((g.n 0 + 1) * (g.n 1 + 1) * (g.n 2 + 1))).filter (fun n => n ∈ sel)
+
+/-- the eight ways to list the corners of the rectangle `[u0,u1] × [v0,v1]` in cyclic order -/
+def IsRectOrder (u0 u1 v0 v1 : Rat) (P : List (Rat × Rat)) : Prop :=
+  P = [(u0, v0), (u1, v0), (u1, v1), (u0, v1)] ∨ P = [(u1, v0), (u1, v1), (u0, v1), (u0, v0)] ∨
+  P = [(u1, v1), (u0, v1), (u0, v0), (u1, v0)] ∨ P = [(u0, v1), (u0, v0), (u1, v0), (u1, v1)] ∨
+  P = [(u0, v1), (u1, v1), (u1, v0), (u0, v0)] ∨ P = [(u1, v1), (u1, v0), (u0, v0), (u0, v1)] ∨
+  P = [(u1, v0), (u0, v0), (u0, v1), (u1, v1)] ∨ P = [(u0, v0), (u0, v1), (u1, v1), (u1, v0)]
+
+/-- a valid face index of kind `d` -/
+def Grid3.ValidFace (g : Grid3) (f : Nat × T3) : Prop :=
+  f.1 < 3 ∧ f.2.1 < g.bound f.1 0 ∧ f.2.2.1 < g.bound f.1 1 ∧ f.2.2.2 < g.bound f.1 2
+
+/-- node coordinates strictly increase in every direction -/
+def Grid3.Mono (g : Grid3) : Prop := ∀ c a b, c < 3 → a < b → b ≤ g.n c → g.x c a < g.x c b
+
 end PorepyVerif.C25
